@@ -31,7 +31,15 @@ pub struct Opts {
 // ------------------------------------------------------------------------------------------
 
 /// `cosim worker <id> --tier T --seed S --from A --to B`
-pub fn worker_main(engine: &'static dyn Engine, tier: Tier, seed: u64, from: u64, to: u64, emit_hashes: bool, config: String) -> i32 {
+pub fn worker_main(
+    engine: &'static dyn Engine,
+    tier: Tier,
+    seed: u64,
+    from: u64,
+    to: u64,
+    emit_hashes: bool,
+    config: String,
+) -> i32 {
     let stack = engine.stack_size();
     let h = std::thread::Builder::new()
         .name("cosim-run".into())
@@ -47,7 +55,15 @@ pub fn worker_main(engine: &'static dyn Engine, tier: Tier, seed: u64, from: u64
     }
 }
 
-fn worker_body(engine: &'static dyn Engine, tier: Tier, seed: u64, from: u64, to: u64, emit_hashes: bool, config: String) -> i32 {
+fn worker_body(
+    engine: &'static dyn Engine,
+    tier: Tier,
+    seed: u64,
+    from: u64,
+    to: u64,
+    emit_hashes: bool,
+    config: String,
+) -> i32 {
     let out = std::io::stdout();
     let mut out = std::io::BufWriter::with_capacity(1 << 16, out.lock());
     let mut stats = RunStats::default();
@@ -174,7 +190,11 @@ pub fn exec_main(engines: &[&'static dyn Engine], path: &str) -> i32 {
             0
         }
         Ok(Ok(Some(v))) => {
-            println!("RESULT violation {} {}", v.invariant, v.detail.replace('\n', " "));
+            println!(
+                "RESULT violation {} {}",
+                v.invariant,
+                v.detail.replace('\n', " ")
+            );
             1
         }
         Ok(Err(e)) => {
@@ -220,7 +240,11 @@ impl Merged {
 enum WorkerEnd {
     Done,
     /// died (or was killed by the watchdog) after completing all runs < progress
-    Died { progress: u64, how: String, hang: bool },
+    Died {
+        progress: u64,
+        how: String,
+        hang: bool,
+    },
     HarnessError(String),
 }
 
@@ -263,7 +287,9 @@ fn spawn_worker(engine: &dyn Engine, opts: &Opts, from: u64, to: u64) -> std::io
     if let Some(c) = &opts.config {
         cmd.arg("--config").arg(c.name);
     }
-    cmd.stdin(Stdio::null()).stdout(Stdio::piped()).stderr(Stdio::piped());
+    cmd.stdin(Stdio::null())
+        .stdout(Stdio::piped())
+        .stderr(Stdio::piped());
     cmd.spawn()
 }
 
@@ -272,7 +298,12 @@ fn run_worker(engine: &dyn Engine, opts: &Opts, from: u64, to: u64) -> (Merged, 
     let mut m = Merged::default();
     let child = match spawn_worker(engine, opts, from, to) {
         Ok(c) => c,
-        Err(e) => return (m, WorkerEnd::HarnessError(format!("cannot spawn worker: {}", e))),
+        Err(e) => {
+            return (
+                m,
+                WorkerEnd::HarnessError(format!("cannot spawn worker: {}", e)),
+            )
+        }
     };
     let child = Arc::new(Mutex::new(child));
     let stdout = child.lock().unwrap().stdout.take().unwrap();
@@ -287,7 +318,8 @@ fn run_worker(engine: &dyn Engine, opts: &Opts, from: u64, to: u64) -> (Merged, 
     let finished = Arc::new(Mutex::new(false));
     let hang = Arc::new(Mutex::new(false));
     let wd = {
-        let (child, last, finished, hang) = (child.clone(), last.clone(), finished.clone(), hang.clone());
+        let (child, last, finished, hang) =
+            (child.clone(), last.clone(), finished.clone(), hang.clone());
         let limit = Duration::from_secs(engine.watchdog_secs());
         std::thread::spawn(move || loop {
             std::thread::sleep(Duration::from_millis(200));
@@ -328,9 +360,18 @@ fn run_worker(engine: &dyn Engine, opts: &Opts, from: u64, to: u64) -> (Merged, 
             }
             Some("V") => {
                 let run = it.next().and_then(|x| x.parse::<u64>().ok());
-                let inv = it.next().and_then(unhex).and_then(|b| String::from_utf8(b).ok());
-                let det = it.next().and_then(unhex).and_then(|b| String::from_utf8(b).ok());
-                let tr = it.next().and_then(unhex).and_then(|b| String::from_utf8(b).ok());
+                let inv = it
+                    .next()
+                    .and_then(unhex)
+                    .and_then(|b| String::from_utf8(b).ok());
+                let det = it
+                    .next()
+                    .and_then(unhex)
+                    .and_then(|b| String::from_utf8(b).ok());
+                let tr = it
+                    .next()
+                    .and_then(unhex)
+                    .and_then(|b| String::from_utf8(b).ok());
                 match (run, inv, det, tr) {
                     (Some(run), Some(inv), Some(det), Some(tr)) => match Trace::parse(&tr) {
                         Ok((t, _)) => m.violations.push((run, Violation::new(inv, det), t)),
@@ -341,7 +382,10 @@ fn run_worker(engine: &dyn Engine, opts: &Opts, from: u64, to: u64) -> (Merged, 
             }
             Some("X") => {
                 let run = it.next().unwrap_or("?").to_string();
-                let msg = it.next().and_then(unhex).map(|b| String::from_utf8_lossy(&b).into_owned());
+                let msg = it
+                    .next()
+                    .and_then(unhex)
+                    .map(|b| String::from_utf8_lossy(&b).into_owned());
                 herr = Some(format!("run {}: {}", run, msg.unwrap_or_default()));
             }
             Some("S") => {
@@ -350,7 +394,10 @@ fn run_worker(engine: &dyn Engine, opts: &Opts, from: u64, to: u64) -> (Merged, 
                 }
             }
             Some("C") => {
-                let k = it.next().and_then(unhex).and_then(|b| String::from_utf8(b).ok());
+                let k = it
+                    .next()
+                    .and_then(unhex)
+                    .and_then(|b| String::from_utf8(b).ok());
                 let v = it.next().and_then(|x| x.parse::<u64>().ok());
                 if let (Some(k), Some(v)) = (k, v) {
                     if k.starts_with("max:") {
@@ -389,15 +436,32 @@ fn run_worker(engine: &dyn Engine, opts: &Opts, from: u64, to: u64) -> (Merged, 
         }
         Ok(st) => {
             if st.code() == Some(2) {
-                return (m, WorkerEnd::HarnessError(format!("worker exit 2: {}", tail(&stderr_text, 400))));
+                return (
+                    m,
+                    WorkerEnd::HarnessError(format!("worker exit 2: {}", tail(&stderr_text, 400))),
+                );
             }
             let how = if was_hang {
-                format!("no progress for {} s (killed by watchdog)", engine.watchdog_secs())
+                format!(
+                    "no progress for {} s (killed by watchdog)",
+                    engine.watchdog_secs()
+                )
             } else {
-                format!("{}; stderr: {}", describe_status(&st), tail(&stderr_text, 300))
+                format!(
+                    "{}; stderr: {}",
+                    describe_status(&st),
+                    tail(&stderr_text, 300)
+                )
             };
             // what the dead worker reported is discarded; the caller re-runs the completed prefix
-            (Merged::default(), WorkerEnd::Died { progress, how, hang: was_hang })
+            (
+                Merged::default(),
+                WorkerEnd::Died {
+                    progress,
+                    how,
+                    hang: was_hang,
+                },
+            )
         }
         Err(e) => (m, WorkerEnd::HarnessError(format!("wait failed: {}", e))),
     }
@@ -420,6 +484,7 @@ fn tail(s: &str, n: usize) -> String {
 fn process_range(engine: &dyn Engine, opts: &Opts, from: u64, to: u64) -> Merged {
     let mut total = Merged::default();
     let mut cur = from;
+    let mut unexplained_deaths = 0;
     while cur < to {
         let (m, end) = run_worker(engine, opts, cur, to);
         match end {
@@ -431,7 +496,11 @@ fn process_range(engine: &dyn Engine, opts: &Opts, from: u64, to: u64) -> Merged
                 total.harness_errors.push(e);
                 break;
             }
-            WorkerEnd::Died { progress, how, hang } => {
+            WorkerEnd::Died {
+                progress,
+                how,
+                hang,
+            } => {
                 // 1. re-run the prefix that is known to complete, to collect its results
                 if progress > cur {
                     let (m2, end2) = run_worker(engine, opts, cur, progress);
@@ -457,7 +526,11 @@ fn process_range(engine: &dyn Engine, opts: &Opts, from: u64, to: u64) -> Merged
                             total.harness_errors.push(e);
                             return total;
                         }
-                        WorkerEnd::Died { how: how3, hang: hang3, .. } => {
+                        WorkerEnd::Died {
+                            how: how3,
+                            hang: hang3,
+                            ..
+                        } => {
                             // confirm once more, alone
                             let (_m4, end4) = run_worker(engine, opts, i, i + 1);
                             if let WorkerEnd::Died { .. } = end4 {
@@ -465,7 +538,8 @@ fn process_range(engine: &dyn Engine, opts: &Opts, from: u64, to: u64) -> Merged
                                 break;
                             } else {
                                 total.harness_errors.push(format!(
-                                    "run {} killed a worker once ({}) but not when repeated", i, how3
+                                    "run {} killed a worker once ({}) but not when repeated",
+                                    i, how3
                                 ));
                                 return total;
                             }
@@ -480,11 +554,48 @@ fn process_range(engine: &dyn Engine, opts: &Opts, from: u64, to: u64) -> Merged
                                 t.set_meta("config", c.name);
                             }
                         }
-                        let inv = if hang3 { format!("{}.hang", engine.id()) } else { engine.death_invariant() };
+                        let inv = if hang3 {
+                            format!("{}.hang", engine.id())
+                        } else {
+                            engine.death_invariant()
+                        };
                         total.violations.push((i, Violation::new(inv, how3), t));
                         total.counters.inc("violating_runs");
                         total.completed += 1;
                         cur = i + 1;
+                    }
+                    None if {
+                        // does the death come back when the same stretch runs again in one fresh
+                        // process?  Then it depends on state carried across runs: a violation.
+                        let (_m, again) = run_worker(engine, opts, cur, win_end);
+                        matches!(again, WorkerEnd::Died { .. })
+                    } =>
+                    {
+                        let mut t = engine.gen(opts.seed, win_end - 1, opts.tier);
+                        if let Some(c) = &opts.config {
+                            if c.name != "default" && c.name != "std:off" {
+                                t.set_meta("config", c.name);
+                            }
+                        }
+                        t.set_meta("history-from", cur.to_string());
+                        t.set_meta("history-to", (win_end - 1).to_string());
+                        t.set_meta("history-tier", opts.tier.name());
+                        total.violations.push((
+                            win_end - 1,
+                            Violation::new(engine.death_invariant(), format!("{} - only when runs {}..{} execute in one process, no single run reproduces it", how, cur, win_end)),
+                            t,
+                        ));
+                        total.counters.inc("violating_runs");
+                        cur = win_end;
+                    }
+                    None if unexplained_deaths < 3 => {
+                        // every run of the window completed when executed alone: the death came from
+                        // outside the run (e.g. the OOM killer on a machine that is busy with other
+                        // work).  The window is done; carry on, but not indefinitely.
+                        unexplained_deaths += 1;
+                        total.counters.inc("probe:worker-death-not-reproduced");
+                        eprintln!("note: a worker died in window {}..{} ({}) but every run of the window completes alone; continuing", progress, win_end, how);
+                        cur = win_end;
                     }
                     None => {
                         total.harness_errors.push(format!(
@@ -501,11 +612,16 @@ fn process_range(engine: &dyn Engine, opts: &Opts, from: u64, to: u64) -> Merged
 }
 
 /// Execute a trace in a fresh child process; returns the invariant id it violates, if any.
-pub fn exec_child(engine: &dyn Engine, t: &Trace, tmp_tag: &str) -> Result<Option<Violation>, HarnessError> {
+pub fn exec_child(
+    engine: &dyn Engine,
+    t: &Trace,
+    tmp_tag: &str,
+) -> Result<Option<Violation>, HarnessError> {
     let dir = format!("{}/replays", VERIF_DIR);
     let _ = std::fs::create_dir_all(&dir);
     let path = format!("{}/.exec-{}-{}.tmp", dir, std::process::id(), tmp_tag);
-    std::fs::write(&path, t.render("?", "")).map_err(|e| HarnessError(format!("write {}: {}", path, e)))?;
+    std::fs::write(&path, t.render("?", ""))
+        .map_err(|e| HarnessError(format!("write {}: {}", path, e)))?;
     let r = exec_file(engine, &path);
     let _ = std::fs::remove_file(&path);
     r
@@ -524,7 +640,15 @@ pub fn exec_history(
     want_invariant: Option<&str>,
 ) -> Result<Option<(u64, Violation, Trace)>, HarnessError> {
     let cfg = config.and_then(|c| engine.configurations().into_iter().find(|x| x.name == c));
-    let opts = Opts { tier, seed, jobs: 1, runs: None, emit_hashes: false, write_evidence: false, config: cfg };
+    let opts = Opts {
+        tier,
+        seed,
+        jobs: 1,
+        runs: None,
+        emit_hashes: false,
+        write_evidence: false,
+        config: cfg,
+    };
     let (m, end) = run_worker(engine, &opts, from, to + 1);
     match end {
         WorkerEnd::Done => {
@@ -542,7 +666,18 @@ pub fn exec_history(
             }
             Ok(v.into_iter().next())
         }
-        WorkerEnd::Died { how, .. } => Err(HarnessError(format!("history re-execution died: {}", how))),
+        WorkerEnd::Died { how, hang, .. } => {
+            let inv = if hang {
+                format!("{}.hang", engine.id())
+            } else {
+                engine.death_invariant()
+            };
+            Ok(Some((
+                to,
+                Violation::new(inv, how),
+                engine.gen(seed, to, tier),
+            )))
+        }
         WorkerEnd::HarnessError(e) => Err(HarnessError(e)),
     }
 }
@@ -551,15 +686,42 @@ pub fn exec_file(engine: &dyn Engine, path: &str) -> Result<Option<Violation>, H
     let mut exe = std::env::current_exe().map_err(|e| HarnessError(e.to_string()))?;
     if let Ok(text) = std::fs::read_to_string(path) {
         // a history replay: the violation needs the runs before it in the same process
-        let meta = |k: &str| text.lines().find_map(|l| l.strip_prefix(&format!("meta {}=", k)).map(|x| x.to_string()));
+        let meta = |k: &str| {
+            text.lines().find_map(|l| {
+                l.strip_prefix(&format!("meta {}=", k))
+                    .map(|x| x.to_string())
+            })
+        };
         if let (Some(hf), Some(ht)) = (meta("history-from"), meta("history-to")) {
-            let from: u64 = hf.parse().map_err(|_| HarnessError("bad history-from".into()))?;
-            let to: u64 = ht.parse().map_err(|_| HarnessError("bad history-to".into()))?;
-            let tier = meta("history-tier").and_then(|t| Tier::parse(&t)).unwrap_or(Tier::Quick);
-            let seed: u64 = text.lines().find_map(|l| l.strip_prefix("seed=")).and_then(|x| x.parse().ok()).unwrap_or(1);
+            let from: u64 = hf
+                .parse()
+                .map_err(|_| HarnessError("bad history-from".into()))?;
+            let to: u64 = ht
+                .parse()
+                .map_err(|_| HarnessError("bad history-to".into()))?;
+            let tier = meta("history-tier")
+                .and_then(|t| Tier::parse(&t))
+                .unwrap_or(Tier::Quick);
+            let seed: u64 = text
+                .lines()
+                .find_map(|l| l.strip_prefix("seed="))
+                .and_then(|x| x.parse().ok())
+                .unwrap_or(1);
             let cfg = meta("config");
-            let want = text.lines().find_map(|l| l.strip_prefix("invariant=")).map(|x| x.to_string());
-            return Ok(exec_history(engine, seed, tier, cfg.as_deref(), from, to, want.as_deref())?.map(|(_, v, _)| v));
+            let want = text
+                .lines()
+                .find_map(|l| l.strip_prefix("invariant="))
+                .map(|x| x.to_string());
+            return Ok(exec_history(
+                engine,
+                seed,
+                tier,
+                cfg.as_deref(),
+                from,
+                to,
+                want.as_deref(),
+            )?
+            .map(|(_, v, _)| v));
         }
         if let Some(cfg) = text.lines().find_map(|l| l.strip_prefix("meta config=")) {
             if let Some(c) = engine.configurations().into_iter().find(|c| c.name == cfg) {
@@ -622,7 +784,10 @@ pub fn exec_file(engine: &dyn Engine, path: &str) -> Result<Option<Violation>, H
             let (inv, det) = rest.split_once(' ').unwrap_or((rest, ""));
             Ok(Some(Violation::new(inv, det)))
         }
-        (Some(2), l) => Err(HarnessError(format!("exec child: {}", l.unwrap_or("no RESULT line")))),
+        (Some(2), l) => Err(HarnessError(format!(
+            "exec child: {}",
+            l.unwrap_or("no RESULT line")
+        ))),
         _ => Ok(Some(Violation::new(
             engine.death_invariant(),
             format!("{}; stderr: {}", describe_status(&status), tail(&err, 300)),
@@ -632,7 +797,11 @@ pub fn exec_file(engine: &dyn Engine, path: &str) -> Result<Option<Violation>, H
 
 /// Delta-debugging over steps, then engine-specific argument shrinking; the invariant id must be
 /// preserved at every accepted step.
-pub fn minimise(engine: &dyn Engine, t: &Trace, invariant: &str) -> Result<(Trace, u64), HarnessError> {
+pub fn minimise(
+    engine: &dyn Engine,
+    t: &Trace,
+    invariant: &str,
+) -> Result<(Trace, u64), HarnessError> {
     let mut tests = 0u64;
     let mut cur = t.clone();
     let fails = |cand: &Trace, tests: &mut u64| -> Result<bool, HarnessError> {
@@ -735,11 +904,22 @@ pub fn load_known_findings() -> Result<Vec<KnownFinding>, HarnessError> {
                 }
             }
             if property.is_empty() || invariant.is_empty() || key.is_empty() {
-                return Err(HarnessError(format!("malformed known_findings line: {}", line)));
+                return Err(HarnessError(format!(
+                    "malformed known_findings line: {}",
+                    line
+                )));
             }
-            out.push(KnownFinding { property, invariant, key, what: what.join(" ") });
+            out.push(KnownFinding {
+                property,
+                invariant,
+                key,
+                what: what.join(" "),
+            });
         } else {
-            return Err(HarnessError(format!("malformed known_findings line: {}", line)));
+            return Err(HarnessError(format!(
+                "malformed known_findings line: {}",
+                line
+            )));
         }
     }
     Ok(out)
@@ -764,13 +944,23 @@ pub fn run_check(engine: &'static dyn Engine, opts: &Opts) -> CheckOutcome {
     let id = engine.id();
     if let Err(e) = crate::palette::check_palettes().and_then(|_| engine.startup_check()) {
         eprintln!("harness error: start-up self-check failed: {}", e);
-        return CheckOutcome { exit: 2, run_hashes: vec![], outcome_digest: 0, outcome_items: vec![] };
+        return CheckOutcome {
+            exit: 2,
+            run_hashes: vec![],
+            outcome_digest: 0,
+            outcome_items: vec![],
+        };
     }
     let known = match load_known_findings() {
         Ok(k) => k,
         Err(e) => {
             eprintln!("{}", e);
-            return CheckOutcome { exit: 2, run_hashes: vec![], outcome_digest: 0, outcome_items: vec![] };
+            return CheckOutcome {
+                exit: 2,
+                run_hashes: vec![],
+                outcome_digest: 0,
+                outcome_items: vec![],
+            };
         }
     };
     let n = opts.runs.unwrap_or_else(|| engine.runs(opts.tier));
@@ -789,12 +979,25 @@ pub fn run_check(engine: &'static dyn Engine, opts: &Opts) -> CheckOutcome {
         if let Some(p) = cfg.exe {
             if !std::path::Path::new(p).exists() {
                 eprintln!("harness error: worker executable {} for configuration {} is missing (run ./check build)", p, cfg.name);
-                return CheckOutcome { exit: 2, run_hashes: vec![], outcome_digest: 0, outcome_items: vec![] };
+                return CheckOutcome {
+                    exit: 2,
+                    run_hashes: vec![],
+                    outcome_digest: 0,
+                    outcome_items: vec![],
+                };
             }
         }
         let n_cfg = n * cfg.share.0 / cfg.share.1;
         let jobs_cfg = jobs.min(n_cfg.max(1) as usize);
-        let copts = Opts { tier: opts.tier, seed: opts.seed, jobs: opts.jobs, runs: opts.runs, emit_hashes: opts.emit_hashes, write_evidence: opts.write_evidence, config: Some(cfg.clone()) };
+        let copts = Opts {
+            tier: opts.tier,
+            seed: opts.seed,
+            jobs: opts.jobs,
+            runs: opts.runs,
+            emit_hashes: opts.emit_hashes,
+            write_evidence: opts.write_evidence,
+            config: Some(cfg.clone()),
+        };
         let before = merged_all.lock().unwrap().completed;
         std::thread::scope(|s| {
             for w in 0..jobs_cfg as u64 {
@@ -809,7 +1012,11 @@ pub fn run_check(engine: &'static dyn Engine, opts: &Opts) -> CheckOutcome {
             }
         });
         let done = merged_all.lock().unwrap().completed - before;
-        merged_all.lock().unwrap().counters.add(&format!("runs:config:{}", cfg.name), done);
+        merged_all
+            .lock()
+            .unwrap()
+            .counters
+            .add(&format!("runs:config:{}", cfg.name), done);
     }
     let mut merged = std::mem::take(&mut *merged_all.lock().unwrap());
     merged.violations.sort_by(|a, b| a.0.cmp(&b.0));
@@ -820,7 +1027,12 @@ pub fn run_check(engine: &'static dyn Engine, opts: &Opts) -> CheckOutcome {
         for e in &merged.harness_errors {
             eprintln!("harness error: {}", e);
         }
-        return CheckOutcome { exit: 2, run_hashes: merged.run_hashes, outcome_digest: 0, outcome_items: vec![] };
+        return CheckOutcome {
+            exit: 2,
+            run_hashes: merged.run_hashes,
+            outcome_digest: 0,
+            outcome_items: vec![],
+        };
     }
 
     // one report per distinct invariant id (first occurrence by run index), at most 4
@@ -862,24 +1074,44 @@ pub fn run_check(engine: &'static dyn Engine, opts: &Opts) -> CheckOutcome {
                 // (a cache, a counter): re-execute the runs that preceded it in one fresh process.
                 let from = run.saturating_sub(4096);
                 let cfg = t.meta("config").map(|s| s.to_string());
-                match exec_history(engine, opts.seed, opts.tier, cfg.as_deref(), from, *run, Some(&v.invariant)) {
+                match exec_history(
+                    engine,
+                    opts.seed,
+                    opts.tier,
+                    cfg.as_deref(),
+                    from,
+                    *run,
+                    Some(&v.invariant),
+                ) {
                     Ok(Some((hr, hv, mut ht))) if hv.invariant == v.invariant => {
                         ht.set_meta("history-from", from.to_string());
                         ht.set_meta("history-to", hr.to_string());
                         ht.set_meta("history-tier", opts.tier.name());
-                        let key = format!("{}:needs-history", engine.finding_key(&ht, &hv.invariant));
-                        let path = format!("{}/replays/{}-seed{}-run{}-history.replay", VERIF_DIR, id, opts.seed, hr);
+                        let key =
+                            format!("{}:needs-history", engine.finding_key(&ht, &hv.invariant));
+                        let path = format!(
+                            "{}/replays/{}-seed{}-run{}-history.replay",
+                            VERIF_DIR, id, opts.seed, hr
+                        );
                         let _ = std::fs::create_dir_all(format!("{}/replays", VERIF_DIR));
                         let mut text = ht.render(&hv.invariant, &hv.detail);
                         text.push_str(&format!("# key={}\n# this violation does not occur when run {} executes alone in a fresh process; it needs runs {}..{} before it in the same process (state carried across calls)\n", key, hr, from, hr));
                         let _ = std::fs::write(&path, text);
-                        let kf = known.iter().find(|k| k.property == id && k.invariant == hv.invariant && k.key == key);
+                        let kf = known.iter().find(|k| {
+                            k.property == id && k.invariant == hv.invariant && k.key == key
+                        });
                         if let Some(k) = kf {
-                            println!("KNOWN-FINDING: property={} {} (invariant={} key={} replay={})", id, k.what, k.invariant, k.key, path);
+                            println!(
+                                "KNOWN-FINDING: property={} {} (invariant={} key={} replay={})",
+                                id, k.what, k.invariant, k.key, path
+                            );
                             known_hits += 1;
                         } else {
                             println!("VIOLATION property={} replay={}", id, path);
-                            println!("  invariant={} key={} run={} detail={}", hv.invariant, key, hr, hv.detail);
+                            println!(
+                                "  invariant={} key={} run={} detail={}",
+                                hv.invariant, key, hr, hv.detail
+                            );
                             println!("  history-dependent: reproduces only after runs {}..{} in the same process, not alone (alone: {:?})", from, hr, other.as_ref().map(|x| x.invariant.clone()));
                             new_violations += 1;
                             if exit == 0 {
@@ -922,11 +1154,16 @@ pub fn run_check(engine: &'static dyn Engine, opts: &Opts) -> CheckOutcome {
         if soft {
             seen_inv.push(v.invariant.clone());
         }
-        let (min, tests) = match minimise(engine, t, &v.invariant) {
-            Ok(x) => x,
-            Err(e) => {
-                eprintln!("{}", e);
-                (t.clone(), 0)
+        let (min, tests) = if t.meta("history-from").is_some() {
+            // a history replay is a run range, not a trace to shrink
+            (t.clone(), 0)
+        } else {
+            match minimise(engine, t, &v.invariant) {
+                Ok(x) => x,
+                Err(e) => {
+                    eprintln!("{}", e);
+                    (t.clone(), 0)
+                }
             }
         };
         let (final_trace, final_v) = match exec_child(engine, &min, "final") {
@@ -938,21 +1175,38 @@ pub fn run_check(engine: &'static dyn Engine, opts: &Opts) -> CheckOutcome {
             }
         };
         let key = engine.finding_key(&final_trace, &final_v.invariant);
-        let path = format!("{}/replays/{}-seed{}-run{}.replay", VERIF_DIR, id, opts.seed, run);
+        let path = format!(
+            "{}/replays/{}-seed{}-run{}.replay",
+            VERIF_DIR, id, opts.seed, run
+        );
         let _ = std::fs::create_dir_all(format!("{}/replays", VERIF_DIR));
         let mut text = final_trace.render(&final_v.invariant, &final_v.detail);
-        text.push_str(&format!("# key={}\n# minimised from {} to {} steps in {} executions\n", key, t.steps.len(), final_trace.steps.len(), tests));
+        text.push_str(&format!(
+            "# key={}\n# minimised from {} to {} steps in {} executions\n",
+            key,
+            t.steps.len(),
+            final_trace.steps.len(),
+            tests
+        ));
         if let Err(e) = std::fs::write(&path, text) {
             eprintln!("harness error: cannot write {}: {}", path, e);
             exit = 2;
         }
-        let kf = known.iter().find(|k| k.property == id && k.invariant == final_v.invariant && k.key == key);
+        let kf = known
+            .iter()
+            .find(|k| k.property == id && k.invariant == final_v.invariant && k.key == key);
         if let Some(k) = kf {
-            println!("KNOWN-FINDING: property={} {} (invariant={} key={} replay={})", id, k.what, k.invariant, k.key, path);
+            println!(
+                "KNOWN-FINDING: property={} {} (invariant={} key={} replay={})",
+                id, k.what, k.invariant, k.key, path
+            );
             known_hits += 1;
         } else {
             println!("VIOLATION property={} replay={}", id, path);
-            println!("  invariant={} key={} run={} detail={}", final_v.invariant, key, run, final_v.detail);
+            println!(
+                "  invariant={} key={} run={} detail={}",
+                final_v.invariant, key, run, final_v.detail
+            );
             println!("  minimised trace: {}", final_trace.summary());
             new_violations += 1;
             if exit == 0 {
@@ -973,7 +1227,16 @@ pub fn run_check(engine: &'static dyn Engine, opts: &Opts) -> CheckOutcome {
 
     let wall = start.elapsed().as_secs_f64();
     if opts.write_evidence {
-        if let Err(e) = write_evidence(engine, opts, n, &merged, wall, new_violations, known_hits, violation_json) {
+        if let Err(e) = write_evidence(
+            engine,
+            opts,
+            n,
+            &merged,
+            wall,
+            new_violations,
+            known_hits,
+            violation_json,
+        ) {
             eprintln!("harness error: {}", e);
             exit = 2;
         }
@@ -1012,7 +1275,12 @@ pub fn run_check(engine: &'static dyn Engine, opts: &Opts) -> CheckOutcome {
         }
         h.finish()
     };
-    CheckOutcome { exit, run_hashes: merged.run_hashes, outcome_digest, outcome_items }
+    CheckOutcome {
+        exit,
+        run_hashes: merged.run_hashes,
+        outcome_digest,
+        outcome_items,
+    }
 }
 
 #[allow(clippy::too_many_arguments)]
@@ -1044,7 +1312,10 @@ fn write_evidence(
     let mut reach = Json::obj();
     for (i, name) in info.distinct_classes.iter().enumerate() {
         let c = (i + 1) as u8;
-        reach.set(name, Json::i(m.sets.get(&c).map(|s| s.len()).unwrap_or(0) as i128));
+        reach.set(
+            name,
+            Json::i(m.sets.get(&c).map(|s| s.len()).unwrap_or(0) as i128),
+        );
     }
     cov.set("reach_distinct", reach);
     // counters split by prefix
@@ -1063,9 +1334,18 @@ fn write_evidence(
     cov.set("faults_fired", Json::from_counts(&faults))
         .set("probes", Json::from_counts(&probes))
         .set("counters", Json::from_counts(&other))
-        .set("fault_kinds", Json::Arr(info.fault_kinds.iter().map(|s| Json::s(*s)).collect()))
-        .set("components_real_code", Json::Arr(info.real_components.iter().map(|s| Json::s(*s)).collect()))
-        .set("components_stub", Json::Arr(info.stub_components.iter().map(|s| Json::s(*s)).collect()))
+        .set(
+            "fault_kinds",
+            Json::Arr(info.fault_kinds.iter().map(|s| Json::s(*s)).collect()),
+        )
+        .set(
+            "components_real_code",
+            Json::Arr(info.real_components.iter().map(|s| Json::s(*s)).collect()),
+        )
+        .set(
+            "components_stub",
+            Json::Arr(info.stub_components.iter().map(|s| Json::s(*s)).collect()),
+        )
         .set("violations_detail", Json::Arr(violation_json))
         .set("known_findings_hit", Json::i(known_hits as i128))
         .set("design_ref", Json::s(info.design_ref));
@@ -1075,7 +1355,10 @@ fn write_evidence(
         .set("seed", Json::i(opts.seed as i128))
         .set("level", Json::s(info.level))
         .set("coverage", cov)
-        .set("assumptions", Json::Arr(info.assumptions.iter().map(|s| Json::s(*s)).collect()))
+        .set(
+            "assumptions",
+            Json::Arr(info.assumptions.iter().map(|s| Json::s(*s)).collect()),
+        )
         .set("wall_s", Json::Num(wall))
         .set("violations", Json::i(new_violations as i128));
     let dir = format!("{}/evidence", VERIF_DIR);
